@@ -263,3 +263,20 @@ PROPS["C17"] = {
     "assumptions": COMMON_ASSUMPTIONS + ["ties and plain-vs-rewrite overlaps other than with the catch-all are not generated; on rewrite rules the query is compared as parsed values (the proxy re-encodes it)",
                                           "hop-by-hop fields, framing, the transport's own Accept-Encoding, X-Forwarded-For, identity headers and GAP-* are excluded"],
 }
+
+PROPS["C06"] = {
+    "level": "exploration",
+    "quick_runs": 160, "quick_budget_s": 200, "thorough_budget_s": 600,
+    "rule": "one run = one world (9 whitelist classes: none, exact, leading dot, *., with port, :*, IPv6, several, wildcard+any-port; reverse-proxy, encode-state, provider button, "
+            "htpasswd) + one chunk of 1500 strings of the COMPLETE enumeration of token sequences up to length 3 (quick; 4 in thorough) over a 46-token adversarial grammar (/, \\, ., .., "
+            "%2e, %2f, %5c, %09, %00, TAB, LF, CR, SP, VT, FF, NUL, U+00A0, U+2028, @, :, #, ?, ;, scheme tokens in several cases incl. javascript: data: ws: ftp:, whitelisted host, "
+            "sub-domain, suffix and prefix look-alikes, IP literals, ports) + 300 random sequences of 4-12 tokens + 32 classics; every string goes through sign_out?rd and "
+            "X-Auth-Request-Redirect; a seeded sample of 120 (600 thorough) through the htpasswd form login, the sign-in and error pages (hidden rd, form action), start?rd -> IdP -> "
+            "callback, a protected path / X-Forwarded-Proto/Host/Uri in reverse-proxy mode -> callback, and the redirect part of the state tampered after start (nonce intact, with and "
+            "without encode-state); oracle: every Location / action / hidden rd resolved by an independent WHATWG-style resolver must be the request host over http(s) or pass an "
+            "independent implementation of the whitelist rules; login redirects must target the IdP authorization endpoint; plain same-site targets survive byte for byte; "
+            "non-trivial = a target other than '/' was produced; distinct = (whitelist class, chunk, mode) + event hash",
+    "level_text": "bounded enumeration of redirect strings partitioned over seeded runs, through four redirect flows incl. state tampering, judged by an independent browser-style resolver",
+    "assumptions": COMMON_ASSUMPTIONS + ["the URL resolver follows the WHATWG algorithm for special schemes as understood by the author; over-rejection of odd but harmless strings is not a violation",
+                                          "apex host under a leading-dot / wildcard rule and an explicitly written default port are judged 'either'"],
+}
